@@ -545,7 +545,7 @@ def restart_and_probe(rng, drv, profile, tid, n0):
 REGIME_CFG = {
     "iso": dict(profile="apps", alt_profile="script2", third_profile="allociso", cfgs=[dict(allow=True, usage=True, blur=0), dict(allow=True, usage=False, blur=0)]),
     "restart": dict(profile="mailbox", alt_profile="script",
-                    over=dict(w_stop=2.0, w_crash=0, w_advance=4, steps=45, sides=["s1", "s2", "s3"]),
+                    over=dict(w_stop=2.0, w_crash=0, w_advance=4, steps=45, sides=["s1", "s2", "s3"], nonstring=0.25),
                     cfgs=[dict(allow=True, usage=True, blur=0), dict(allow=True, usage=False, blur=0)]),
     "resend": dict(profile="crowd", over=dict(conns=("c1", "c2", "c3"), names=["1", "x"]),
                    cfgs=[dict(allow=True, usage=False, blur=0), dict(allow=True, usage=True, blur=0)]),
